@@ -209,6 +209,7 @@ CHECKS = {
         assumptions=["random cache-busting characters are produced by socketace itself and not compared", "the server is configured with the lower-cased domain"],
         quick=dict(run=".", checks=20000, timeout=600),
         thorough=dict(run=".", checks=250000, timeout=3000, shards=8),
+        fuzz=[dict(name="FuzzRequestsSurviveTheWire", time="120s")],
         design_ref="DESIGN.md 2/C09",
         level_text=("Generated requests of every command through the real client serializer, real DNS wire packing and the real server "
                     "deserializer. A green run means every generated request within the client's own size budget was a valid DNS "
@@ -233,6 +234,7 @@ CHECKS = {
         assumptions=["'selectable' is defined operationally by the client's own probe over a transparent wire"],
         quick=dict(run=".", checks=6000, timeout=600),
         thorough=dict(run=".", checks=80000, timeout=3000, shards=8),
+        fuzz=[dict(name="FuzzResponsesSurviveTheWire", time="120s")],
         design_ref="DESIGN.md 2/C10",
         level_text=("Generated responses of every type, record type and codec through the real wrapping code and real DNS wire packing. A "
                     "green run means every generated response came back equal or with a reported error, and equal whenever the "
